@@ -339,7 +339,8 @@ def _exact64(xs):
 def transforms(name, c, rng):
     """-> list of (label, transformed case, how to map the flags: 'same' | 'reverse')"""
     return [t for t in _transforms(name, c, rng)
-            if all(_exact64(t[1][k]) for k in ("xs", "rho") if isinstance(t[1].get(k), list))]
+            if all(_exact64(t[1][k]) for k in ("xs", "rho", "fail", "suspect") if isinstance(t[1].get(k), list))
+            and all(_exact64([t[1][k]]) for k in ("lo", "hi") if isinstance(t[1].get(k), str))]
 
 
 def _transforms(name, c, rng):
@@ -378,6 +379,15 @@ def _transforms(name, c, rng):
         k = cv if c["kind"] == "float" else F(ct)
         out.append(("joint shift", with_(xs=_shift_list(c["xs"], k), lo=core.fr(None if c["lo"] is None else F(c["lo"]) + k),
                                          hi=core.fr(None if c["hi"] is None else F(c["hi"]) + k)), "same"))
+    # data and limits moved TOGETHER far from zero (2^20 .. 2^33; all exact in float64): a comparison with a tolerance
+    # relative to the magnitude of a limit shows here
+    kbig = F(rng.choice([2 ** 20, -(2 ** 20), 2 ** 24, 2 ** 30 + 1, -(2 ** 33)]))
+    if name == "gross_range_test" and len(c["fail"]) == 2 and (c["suspect"] is None or len(c["suspect"]) == 2):
+        out.append(("large joint shift", with_(xs=_shift_list(c["xs"], kbig), fail=_shift_list(c["fail"], kbig),
+                                               suspect=None if c["suspect"] is None else _shift_list(c["suspect"], kbig)), "same"))
+    if name == "valid_range_test" and c["kind"] == "float" and not c.get("infinite"):
+        out.append(("large joint shift", with_(xs=_shift_list(c["xs"], kbig), lo=core.fr(None if c["lo"] is None else F(c["lo"]) + kbig),
+                                               hi=core.fr(None if c["hi"] is None else F(c["hi"]) + kbig)), "same"))
     return out
 
 
@@ -464,7 +474,7 @@ def c17_failures(name, ad, c, rng):
 
 DATA_KEYS = ("inp", "zinp", "lon", "lat")
 DATA_CARRIERS = ["list_none", "list_nan", "tuple_none", "float32", "int64", "masked_nan", "masked_hidden", "series", "dask",
-                 "object_none", "series_object", "int16", "int8", "masked_partial"]
+                 "object_none", "series_object", "int16", "int8", "masked_partial", "uint8", "uint16"]
 TIME_CARRIERS = ["dt64_s", "dt64_ms", "dt64_us", "pydatetime", "timestamps", "dtindex", "series", "series_utc",
                  "dtindex_utc", "epoch_s_list", "epoch_s_array", "epoch_s_int32", "epoch_s_int64", "epoch_s_uint32",
                  "dtindex_s", "series_s", "dtindex_ms"]
@@ -496,6 +506,12 @@ def convert_data(arr, carrier):
             return arr, False
         obj = np.array([None if m else float(v) for v, m in zip(arr.tolist(), isn.tolist())], dtype=object)
         return (obj if carrier == "object_none" else pd.Series(obj, dtype=object)), True
+    if carrier in ("uint8", "uint16"):
+        # counts in an unsigned array (a difference of two of them must not wrap around)
+        lim = 2 ** 8 if carrier == "uint8" else 2 ** 16
+        if isn.any() or not np.all(arr == np.floor(arr)) or (arr.size and (np.min(arr) < 0 or np.max(arr) >= lim)):
+            return arr, False
+        return arr.astype(carrier), True
     if carrier in ("int64", "int32", "int16", "int8", "int_list"):
         lim = {"int16": 2 ** 15, "int8": 2 ** 7}.get(carrier, 2 ** 31)
         if isn.any() or not np.all(arr == np.floor(arr)) or (arr.size and np.max(np.abs(arr)) >= lim):
@@ -809,7 +825,7 @@ def fine_block(ad, cases, tier, rng):
         if d is None:
             continue
         base, _ = ad.impl(d)
-        for dc in ("float32", "int64", "int16"):
+        for dc in ("float32", "int64", "int16", "uint8"):
             tr, applied = carrier_transform(dc, None, None)
             core.KW_TRANSFORM = tr
             try:
